@@ -182,8 +182,10 @@ class AnnGen:
 
 # --------------------------------------------------------------------------- names
 
-FUNCS = ["f", "g", "compute", "my_func", "get_value_x", "doIt", "to_text", "helper1", "run_all", "transform"]
-CLASSES = ["A", "B", "Shape", "Node", "my_class", "HTTPServer", "Data_Set", "Tree", "Base", "Impl", "Widget"]
+FUNCS = ["f", "g", "compute", "my_func", "get_value_x", "doIt", "to_text", "helper1", "run_all", "transform",
+         "load_data", "save_it", "fit", "predict_one", "score", "plot_xy", "resize", "merge_all", "split_by", "norm"]
+CLASSES = ["A", "B", "Shape", "Node", "my_class", "HTTPServer", "Data_Set", "Tree", "Base", "Impl", "Widget",
+           "Model", "Layer", "Table", "Row", "Col_Spec", "Reader", "Writer", "Graph", "Edge"]
 PARAMS = ["x", "y", "value", "max_depth", "n_jobs", "alpha", "data_set", "flag", "name", "count", "opt_z"]
 ATTRS = ["a", "b", "count", "my_attr", "value_2", "data", "size"]
 MODULES = ["mod_a", "mod_b", "core", "utils", "shapes", "io_tools"]
@@ -217,12 +219,21 @@ class Names:
 # --------------------------------------------------------------------------- docstrings
 
 def doc_block(style: str, desc: str, params: list[tuple[str, str, str]], result: tuple[str, str] | None,
-              indent: str) -> str:
+              indent: str, attrs: list[tuple[str, str]] | None = None) -> str:
     """a docstring in the given style with unique marker texts; params = [(name, type_src, desc)],
     result = (type_src, desc)"""
-    if not desc and not params and not result:
+    attrs = attrs if style in ("numpydoc", "google") else None
+    if not desc and not params and not result and not attrs:
         return ""
     lines = [desc] if desc else ["Doc."]
+    if attrs and style == "numpydoc":
+        lines += ["", "Attributes", "----------"]
+        for n, d in attrs:
+            lines += [n, f"    {d}"]
+    if attrs and style == "google":
+        lines += ["", "Attributes:"]
+        for n, d in attrs:
+            lines.append(f"    {n}: {d}")
     if style == "plaintext":
         pass
     elif style == "numpydoc":
@@ -261,7 +272,7 @@ def doc_block(style: str, desc: str, params: list[tuple[str, str, str]], result:
 class PkgGen:
     def __init__(self, rng: random.Random, *, kw_rate=0.05, style="plaintext", docs=0.5, reexports=True,
                  test_dirs=False, private_rate=0.2, infer_returns=0.15, n_modules=(2, 4), root_name="pkg",
-                 cross_refs=True, doc_types="none"):
+                 cross_refs=True, doc_types="none", unique_top_names=True):
         self.r = rng
         self.names = Names(rng, kw_rate)
         self.style = style
@@ -274,6 +285,10 @@ class PkgGen:
         self.root = root_name
         self.cross_refs = cross_refs
         self.doc_types = doc_types          # none | same | mixed : types written into the docstrings
+        # scope of most oracles: no two modules define the same top-level name (same-named declarations in
+        # unrelated modules confuse the tool's suffix-matching of re-exports and aliases: known findings K18-*)
+        self.unique_top_names = unique_top_names
+        self.global_used: set = set()
         self.counter = 0
 
     def marker(self, what: str) -> str:
@@ -447,6 +462,9 @@ class PkgGen:
             c["classes"].append(self.class_(ag, nn, f"{qname}.{nn}", [], depth_left - 1))
         if r.random() < self.docs:
             c["doc"] = self.marker(f"class {name}")
+        # documented attributes (numpydoc / google only: an "Attributes" section of the class docstring)
+        for a in c["attrs"] + c["inst_attrs"]:
+            a["doc"] = self.marker(f"attr {a['name']}") if (r.random() < self.docs * 0.6) else ""
         return c
 
     def module(self, pkg_parts, name, avail):
@@ -454,7 +472,7 @@ class PkgGen:
         qn = ".".join(pkg_parts + [name])
         m = {"kind": "module", "name": name, "pkg": list(pkg_parts), "qname": qn, "classes": [], "functions": [],
              "enums": [], "doc": self.marker(f"module {name}") if r.random() < self.docs * 0.6 else "", "imports": set()}
-        used = set()
+        used = self.global_used if self.unique_top_names else set()
         local = []
         for _ in range(r.choice([0, 1, 2, 3])):
             cn = self.names.pick(CLASSES, used, self.private_rate, cls=True)
@@ -488,7 +506,7 @@ class PkgGen:
         n = r.randint(*self.n_modules)
         for i in range(n):
             pk = pkgs[i % len(pkgs)] if i < len(pkgs) else r.choice(pkgs)
-            u = used_mod.setdefault(tuple(pk), set())
+            u = used_mod.setdefault(tuple(pk) if not self.unique_top_names else "all", set())
             pool = MODULES + (["test_x", "tests_util"] if self.test_dirs else [])
             mn = self.names.pick(pool, u, self.private_rate * 0.7)
             in_excl = bool(set(pk + [mn]) & {"test", "tests", "docs"})
@@ -589,8 +607,10 @@ def class_src(c, indent: str, style: str) -> list[str]:
     bases = ", ".join(b[0] for b in c["bases"])
     lines = [f"{indent}class {c['name']}" + (f"({bases})" if bases else "") + ":"]
     inner = indent + "    "
-    if c["doc"]:
-        lines.append(doc_block("plaintext" if style == "plaintext" else style, c["doc"], [], None, inner).rstrip("\n"))
+    adocs = [(a["name"], a["doc"]) for a in c["attrs"] + c["inst_attrs"] if a.get("doc")]
+    cdoc = doc_block("plaintext" if style == "plaintext" else style, c["doc"], [], None, inner, adocs)
+    if cdoc:
+        lines.append(cdoc.rstrip("\n"))
     body = False
     for a in c["attrs"]:
         s = f"{inner}{a['name']}"
